@@ -283,7 +283,7 @@ func execAction(l *Loaded, act *action, gobTransport bool, st *ExecStats) {
 		Pkg:        act.pkg.Types,
 		TypesInfo:  act.pkg.Info,
 		TypesSizes: types.SizesFor("gc", "amd64"),
-		Module:     &analysis.Module{Path: l.World.Module},
+		Module:     moduleFor(l.World, act.pkg.Index),
 		ResultOf:   inputs,
 		Report: func(d analysis.Diagnostic) {
 			simrt.Yield(siteReport)
@@ -366,6 +366,14 @@ func execAction(l *Loaded, act *action, gobTransport bool, st *ExecStats) {
 	}
 	pass.ExportPackageFact = nil
 	simrt.Yield(siteActionEnd)
+}
+
+func moduleFor(w *world.World, idx int) *analysis.Module {
+	if idx < 0 {
+		return &analysis.Module{} // "unsafe"
+	}
+	p, v := ModuleOf(w, idx)
+	return &analysis.Module{Path: p, Version: v}
 }
 
 //go:norace
